@@ -961,7 +961,7 @@ def eval_term(t, env_of):
     return None
 
 
-def explore_under(fn, env_of, limit=4000, avoid=(), capture=()):
+def explore_under(fn, env_of, limit=4000, avoid=(), capture=(), reset_at=()):
     """(return blocks reached, blocks visited) by abstract execution from the entry: values of locals are tracked *along the
     path* (constants, plain copies, and whatever `eval_term` decides for a right-hand side or a call result under the
     environment), every switch whose discriminant is thereby decided takes only the decided edge, an undecided switch forks.
@@ -997,7 +997,7 @@ def explore_under(fn, env_of, limit=4000, avoid=(), capture=()):
         b, st = stack.pop()
         if fn.is_cleanup(b) or b in avoid:
             continue
-        key = (b, tuple(sorted((k, repr(v)) for k, v in st.items())))
+        key = (b, tuple(sorted(((str(k), repr(v)) for k, v in st.items()))))
         if key in seen_states:
             continue
         seen_states.add(key)
@@ -1005,6 +1005,9 @@ def explore_under(fn, env_of, limit=4000, avoid=(), capture=()):
         if b in capture:
             captured.append((b, dict(st)))
         st = dict(st)
+        if b in reset_at:
+            st.pop("__ev", None)
+        _fired = getattr(env_of, "fired", None)
         for s_ in fn.blocks[b]["stmts"]:
             if s_["k"] != "assign" or s_["lhs"].get("p"):
                 continue
@@ -1036,6 +1039,10 @@ def explore_under(fn, env_of, limit=4000, avoid=(), capture=()):
             else:
                 st[s_["lhs"]["l"]] = v
         t = fn.term(b)
+        if _fired is not None and env_of.fired:
+            # the environment decided one of its key tests while this block was evaluated: remembered along the path
+            st["__ev"] = True
+            env_of.fired = False
         if t["k"] == "return":
             out.add(b)
             continue
@@ -1058,8 +1065,14 @@ def explore_under(fn, env_of, limit=4000, avoid=(), capture=()):
                 st.pop(t["dest"]["l"], None)
             else:
                 st[t["dest"]["l"]] = v
+            if _fired is not None and env_of.fired:
+                st["__ev"] = True
+                env_of.fired = False
         if t["k"] == "switch":
             v = val_of(t["discr"], st)
+            if _fired is not None and env_of.fired:
+                st["__ev"] = True
+                env_of.fired = False
             if isinstance(v, bool):
                 v = int(v)
             if isinstance(v, int):
